@@ -13,7 +13,8 @@ from refs import rsk                        # noqa: E402
 
 PROPERTY = "C05"
 LEVEL = "exploration"
-RULE = ("one run = bring-up + one generated advanceBlockchain or updateAncestorBlock request "
+RULE = ("one run = bring-up + 1..3 generated advanceBlockchain / updateAncestorBlock requests in one "
+        "manager lifetime (one in five meets a link fault at a drawn exchange, at most one per lifetime) "
         "(headers from an independent RLP encoder, coinbase transactions compressed with an "
         "independent SHA-256 core at a drawn 64-byte split) against a Signer model whose chunk "
         "sizes, per-header termination (exact/late/early), brother requests, stop-after-k and "
